@@ -8,6 +8,7 @@ from ..refmodel import ref_predict
 
 PROPERTY = "C11"
 PYTEST_PREFIX = "C11/"
+TECHNIQUE = "runtime monitoring: contract monitor on predict_rank + shadow call of predict_draw + closed-form input-order check"
 LEVEL = "exploration"
 RULE = ("Contract on the real predict_rank: one (int rank in 1..n, prob in [0,1]) pair per team in input order; p_i>p_j "
         "implies rank_i<rank_j; p_i==p_j implies equal ranks; the arg-max has rank 1; for n>=3 sum(p)+predict_draw is "
